@@ -28,53 +28,135 @@ def _scratch_copy(repo):
     return d
 
 
-def _run_variant(prop, patch, expect_violation):
+VARIANTS = os.path.join(extract.CACHE, "variants")
+VARIANT_KEEP = 320
+FACT_FILES = ("tree_sitter_graph-lib.json", "tree_sitter_graph-bin.json", "tsg_control-lib.json")
+# behaviour-preserving refactorings on which a named rule is known to raise a false alarm (DESIGN.md 5c): run, reported, not counted
+from_selftest = os.path.join(VERIF, "selftest")
+
+
+def _known_limitations():
+    p = os.path.join(from_selftest, "known_limitations.json")
+    return json.load(open(p)) if os.path.exists(p) else {}
+
+
+def _variant_facts(patch, base_hash):
+    """facts of (current /repo + patch), extracted on a scratch copy; cached (gzip) under .cache/variants keyed by the hash of
+    /repo's current sources, the driver and the patch, so the 20 thorough checks share one extraction per variant"""
+    import gzip
+    import hashlib
+    key = hashlib.sha256((base_hash + "\0").encode() + open(patch, "rb").read()).hexdigest()
+    vdir = os.path.join(VARIANTS, key)
+    if all(os.path.exists(os.path.join(vdir, n + ".gz")) for n in FACT_FILES):
+        os.utime(vdir, None)
+        return vdir, None
+    if os.path.exists(os.path.join(vdir, "status.json")):
+        os.utime(vdir, None)
+        return None, json.load(open(os.path.join(vdir, "status.json")))
     scratch = _scratch_copy(extract.REPO)
     out = os.path.join(scratch, "facts")
     try:
+        st = None
         r = subprocess.run(["git", "apply", "--whitespace=nowarn", patch], cwd=scratch, stdout=subprocess.PIPE, stderr=subprocess.STDOUT, text=True)
         if r.returncode != 0:
             # the patch may touch files outside src/ (tests) or not apply to the current tree
             r2 = subprocess.run(["git", "apply", "--whitespace=nowarn", "--include=src/*", patch], cwd=scratch, stdout=subprocess.PIPE, stderr=subprocess.STDOUT, text=True)
             if r2.returncode != 0:
-                return {"patch": os.path.relpath(patch, VERIF), "status": "does-not-apply", "detail": r.stdout.strip()[:200]}
-        nonce = uuid.uuid4().hex
-        rr = extract.run_extraction(scratch, out, extract.DEPS_TARGET, nonce)
-        if rr.returncode != 0 or not os.path.exists(os.path.join(out, "tree_sitter_graph-lib.json")):
-            return {"patch": os.path.relpath(patch, VERIF), "status": "does-not-build", "detail": rr.stdout[-300:]}
-        extract.run_control_extraction(scratch, out, nonce)      # the positive controls belong to every fact set
-        env = dict(os.environ)
-        env["TSG_SELFTEST_CHILD"] = "1"
-        c = subprocess.run([sys.executable, os.path.join(VERIF, "check"), prop, "--facts", out, "--no-evidence"], cwd=VERIF, env=env,
-                           stdout=subprocess.PIPE, stderr=subprocess.STDOUT, text=True)
-        viol = [l for l in c.stdout.splitlines() if l.startswith("VIOLATION")]
-        first = ""
-        lines = c.stdout.splitlines()
-        for i, l in enumerate(lines):
-            if l.startswith("VIOLATION"):
-                first = " | ".join(x.strip() for x in lines[i + 1:i + 4])[:300]
-                break
-        fired = bool(viol)
-        return {"patch": os.path.relpath(patch, VERIF), "status": "ok" if fired == expect_violation else ("MISSED" if expect_violation else "FALSE-ALARM"),
-                "violations": len(viol), "first": first}
+                st = {"status": "does-not-apply", "detail": r.stdout.strip()[:200]}
+        if st is None:
+            nonce = uuid.uuid4().hex
+            rr = extract.run_extraction(scratch, out, extract.DEPS_TARGET, nonce)
+            if rr.returncode != 0 or not os.path.exists(os.path.join(out, "tree_sitter_graph-lib.json")):
+                st = {"status": "does-not-build", "detail": rr.stdout[-300:]}
+            else:
+                extract.run_control_extraction(scratch, out, nonce)      # the positive controls belong to every fact set
+                if not all(os.path.exists(os.path.join(out, n)) for n in FACT_FILES):
+                    st = {"status": "does-not-build", "detail": "fact files missing after extraction"}
+        os.makedirs(vdir, exist_ok=True)
+        if st is not None:
+            json.dump(st, open(os.path.join(vdir, "status.json"), "w"))
+            return None, st
+        for n in FACT_FILES:
+            with open(os.path.join(out, n), "rb") as fi, gzip.open(os.path.join(vdir, n + ".gz.tmp"), "wb", compresslevel=3) as fo:
+                shutil.copyfileobj(fi, fo)
+            os.replace(os.path.join(vdir, n + ".gz.tmp"), os.path.join(vdir, n + ".gz"))
+        return vdir, None
     finally:
         shutil.rmtree(scratch, ignore_errors=True)
 
 
+def _prune_variants():
+    if not os.path.isdir(VARIANTS):
+        return
+    ds = sorted((os.path.join(VARIANTS, d) for d in os.listdir(VARIANTS)), key=os.path.getmtime, reverse=True)
+    for d in ds[VARIANT_KEEP:]:
+        shutil.rmtree(d, ignore_errors=True)
+
+
+def _check_variant(prop, patch, vdir, expect_violation):
+    import gzip
+    tmp = tempfile.mkdtemp(prefix="tsgverif-facts-")
+    try:
+        for n in FACT_FILES:
+            with gzip.open(os.path.join(vdir, n + ".gz"), "rb") as fi, open(os.path.join(tmp, n), "wb") as fo:
+                shutil.copyfileobj(fi, fo)
+        env = dict(os.environ)
+        env["TSG_SELFTEST_CHILD"] = "1"
+        c = subprocess.run([sys.executable, os.path.join(VERIF, "check"), prop, "--facts", tmp, "--no-evidence"], cwd=VERIF, env=env,
+                           stdout=subprocess.PIPE, stderr=subprocess.STDOUT, text=True)
+        lines = c.stdout.splitlines()
+        viol = [l for l in lines if l.startswith("VIOLATION")]
+        first = ""
+        for i, l in enumerate(lines):
+            if l.startswith("VIOLATION"):
+                first = " | ".join(x.strip() for x in lines[i + 1:i + 4])[:300]
+                break
+        if c.returncode not in (0, 1) or (c.returncode == 1 and not viol):
+            return {"patch": os.path.relpath(patch, VERIF), "status": "CHECK-ERROR", "detail": c.stdout[-300:]}
+        fired = bool(viol)
+        return {"patch": os.path.relpath(patch, VERIF), "status": "ok" if fired == expect_violation else ("MISSED" if expect_violation else "FALSE-ALARM"),
+                "violations": len(viol), "first": first}
+    finally:
+        shutil.rmtree(tmp, ignore_errors=True)
+
+
 def run(prop):
-    res = {"mutants": [], "refactors": []}
+    from concurrent.futures import ThreadPoolExecutor
+    res = {"mutants": [], "refactors": [], "known_limitations": []}
+    known = _known_limitations()
+    muts = sorted(glob.glob(os.path.join(VERIF, "seeded", prop + "-*", "patch.diff")) + glob.glob(os.path.join(VERIF, "selftest", "mutants", prop + "-*.diff")))
+    refs = sorted(glob.glob(os.path.join(VERIF, "selftest", "refactors", "*.diff")) + glob.glob(os.path.join(VERIF, "selftest", "refactors_ext", "*.diff")))
+    jobs = []
     lock = open(os.path.join(extract.CACHE, "lock"), "w")
     import fcntl
-    fcntl.flock(lock, fcntl.LOCK_EX)
+    fcntl.flock(lock, fcntl.LOCK_EX)          # extractions share one dependency target directory: one at a time
     try:
-        pats = sorted(glob.glob(os.path.join(VERIF, "seeded", prop + "-*", "patch.diff")) + glob.glob(os.path.join(VERIF, "selftest", "mutants", prop + "-*.diff")))
-        for p in pats:
-            res["mutants"].append(_run_variant(prop, p, True))
-        for p in sorted(glob.glob(os.path.join(VERIF, "selftest", "refactors", "*.diff"))):
-            res["refactors"].append(_run_variant(prop, p, False))
+        base = extract.source_hash()
+        for p, expect in [(m, True) for m in muts] + [(r_, False) for r_ in refs]:
+            vdir, st = _variant_facts(p, base)
+            jobs.append((p, expect, vdir, st))
+        _prune_variants()
     finally:
         fcntl.flock(lock, fcntl.LOCK_UN)
         lock.close()
+
+    def one(job):
+        p, expect, vdir, st = job
+        if vdir is None:
+            return dict(st, patch=os.path.relpath(p, VERIF))
+        return _check_variant(prop, p, vdir, expect)
+    with ThreadPoolExecutor(max_workers=min(12, os.cpu_count() or 4)) as ex:
+        outs = list(ex.map(one, jobs))
+    for (p, expect, _v, _s), o in zip(jobs, outs):
+        name = os.path.basename(p)
+        if expect:
+            res["mutants"].append(o)
+        elif name in known:
+            # a refactoring on which a named rule is known to raise a false alarm: reported, never counted as a pass or a failure
+            o["limitation"] = known[name]
+            res["known_limitations"].append(o)
+        else:
+            res["refactors"].append(o)
     return res
 
 
